@@ -1,19 +1,19 @@
 (* Props/C16.v — No input makes renamify crash: the anchored panic sites.  Statements only. *)
 From RN Require Import Base.Bytes Model.Edits Model.CaseModel Model.Matcher Proofs.EditsP Proofs.HunksP.
-From RN Require Proofs.CaseP.
+From RN Require Proofs.CaseP Proofs.Apply2P.
 
 (* apply: a well-formed plan never reaches a panic ... *)
 Theorem C16_wf_plan_no_panic : forall orig es,
   head_ok orig = true -> wf_edits orig es = true -> apply_edits_rev orig es <> Panic.
 Proof. intros orig es H1 H2. rewrite apply_edits_rev_spec by assumption. discriminate. Qed.
 
-(* ... and the first thing a stale edit meets (offsets beyond the file, inside a character, other text) is
-   the content check, which reports a mismatch instead of slicing *)
-Theorem C16_stale_last_edit_is_mismatch : forall orig es e,
-  edit_matches orig e = false -> apply_edits_rev orig (es ++ [e]) = Mismatch.
+(* ... a stale edit anywhere in the plan (offsets beyond the file, inside a character, other text) is never
+   accepted: the content check reports a mismatch instead of slicing *)
+Theorem C16_stale_edit_is_rejected : forall orig es e,
+  In e es -> edit_matches orig e = false -> forall r, apply_edits_rev orig es <> Ok r.
 Proof.
-  intros orig es e H. unfold apply_edits_rev. rewrite rev_app_distr. cbn [rev app apply_rev_aux].
-  unfold edit_matches in H. destruct (str_slice orig (e_start e) (e_stop e)); [rewrite H|]; reflexivity.
+  intros orig es e Hin H. apply apply_edits_rev_mismatch. apply existsb_exists. exists e. split; [exact Hin|].
+  rewrite H. reflexivity.
 Qed.
 
 (* the tokenizer's fuel never runs out: parse_to_tokens is total on every byte string and table *)
@@ -26,7 +26,31 @@ Proof.
   intros vs c a b v H. destruct (find_iter_sound vs c a b v H) as (E & L & _). split; [lia | exact L].
 Qed.
 
+(* the whole of apply_content_edits_with_content (sort, overlap pre-check, loop): EVERY edit list — any order,
+   duplicated, overlapping, offsets beyond the file or inside a character, any recorded texts — ends in Ok or
+   in the content-mismatch error, never in a panic.  The only hypothesis is one every Rust String meets:
+   the replacement texts do not begin with a UTF-8 continuation byte. *)
+Theorem C16_edits_never_panic : forall orig es,
+  forallb (fun e => head_ok (e_new e)) es = true -> apply_edits_rev orig es <> Panic.
+Proof. exact Apply2P.edits_never_panic. Qed.
+
+Theorem C16_edits_mismatch_or_spec : forall orig es,
+  head_ok orig = true -> forallb (fun e => head_ok (e_new e)) es = true ->
+  apply_edits_rev orig es = Mismatch \/
+  (wf_edits orig (sort_edits es) = true /\ apply_edits_rev orig es = Ok (spec_splice orig (sort_edits es))).
+Proof. exact Apply2P.edits_mismatch_or_spec. Qed.
+
+(* the pre-check is what protects the loop: on its own the loop panics on out-of-order edits
+   (this was the behaviour of apply before the fix recorded in known_findings.json) *)
+Theorem C16_loop_alone_can_panic : exists orig es,
+  forallb (fun e => head_ok (e_new e)) es = true /\ apply_edits_pos orig es = Panic /\
+  apply_edits_rev orig es = Ok [195; 169; 195; 169; 120]%N.
+Proof. exact Apply2P.unordered_edits_panic_ex. Qed.
+
 Print Assumptions C16_wf_plan_no_panic.
-Print Assumptions C16_stale_last_edit_is_mismatch.
+Print Assumptions C16_stale_edit_is_rejected.
 Print Assumptions C16_tokenizer_total.
 Print Assumptions C16_spans_in_range.
+Print Assumptions C16_edits_never_panic.
+Print Assumptions C16_edits_mismatch_or_spec.
+Print Assumptions C16_loop_alone_can_panic.
